@@ -386,3 +386,28 @@ pub fn replay(v: &mc_core::Value) -> (bool, String) {
 }
 
 pub const RULE: &str = "abstract value (formulas with <=2-3 clauses of length <=3 over {1,-2,3,127}, with/without header, wcnf weights {5,0,u64::MAX}, gcnf groups {0,7,3}; solver logs: status in {none,SAT,UNSAT,UNKNOWN} x assignment of length 0..4 x every split over 1..3 value lines) x rendering: layout slots {before header, token gaps, in-clause gaps incl. line breaks with comment/blank lines and CRLF, line ends with trailing blanks, between statements, numeral spelling with leading zeros, terminator spelling 0/-0/00, final newline; for logs: comment (and, with ignore_unknown_lines, arbitrary) lines in every inter-line slot, blanks after 'v', value line ends}; full product for small templates, otherwise all renderings with at most d non-default slots; x {one-shot, byte-wise, 7 bytes per read with chunk 7}. Renderings are distinct by construction; non-trivial = at least two non-default slots (interactions)";
+
+/// Renderings with at most one non-default layout slot of a few formulas (used by C09: line-wise
+/// delivery must hand out each clause at the end of its completing line in every layout).
+pub fn renderings_d1(kind: &str) -> Vec<mc_core::generic::Doc> {
+    let tag = |i: usize| match kind {
+        "wcnf" => Some(["5", "0", "18446744073709551615"][i % 3].to_string()),
+        "gcnf" => Some(["0", "7", "3"][i % 3].to_string()),
+        _ => None,
+    };
+    let l = |v: &[&str]| v.iter().map(|x| x.to_string()).collect::<Vec<String>>();
+    let forms: Vec<(bool, Vec<(Option<String>, Vec<String>)>)> = vec![
+        (true, vec![(tag(0), l(&["1", "-2"])), (tag(1), l(&[])), (tag(2), l(&["3"]))]),
+        (false, vec![(tag(0), l(&["1", "-2", "3"])), (tag(1), l(&["-1"]))]),
+        (true, vec![(tag(1), l(&["12345678", "-123456789"]))]),
+    ];
+    let mut out = Vec::new();
+    for (header, clauses) in forms {
+        let (t, _) = formula_template(kind, header, &clauses, "123456789");
+        let (assigns, _) = assignments(&t, 1, 0);
+        for a in assigns {
+            out.push(mc_core::generic::Doc::new("layout", render(&t, &a)));
+        }
+    }
+    mc_core::generic::dedup_docs(out)
+}
